@@ -78,6 +78,7 @@ def _sym_table():
         "np_log": lambda x: sp.log(x),
         "np_sqrt": lambda x: sp.sqrt(x),
         "sp_erfc": lambda x: sp.erfc(x),
+        "sp_erf": lambda x: sp.erf(x),
         "norm_cdf": lambda x: (1 + sp.erf(x / sp.sqrt(2))) / 2,
         "norm_pdf": lambda x: sp.exp(-x * x / 2) / sp.sqrt(2 * sp.pi),
         "np_pow": lambda x, y: x**y,
